@@ -27,8 +27,8 @@ def seedcount():
     ms=[json.load(open(d)) for d in sorted(glob.glob(V+'/seeded/*/meta.json'))]
     miss=[m['id'] for m in ms if m.get('detected_initially') is False]
     still=[m['id'] for m in ms if not m.get('detected')]
-    return ("Of %d changes, %d were caught by the quick check as it stood when the change arrived; %d were missed at first (%s; C20-a was\nanswered with a machinery failure, exit 2) and led to the strengthenings recorded in the `strengthening`\nfield of their `meta.json` and in 11.1. %s (each is run twice by `selftest_mutants.sh seeded_`)."
-            %(len(ms),len(ms)-len(miss),len(miss),', '.join(miss),'All %d are caught now, every time'%len(ms) if not still else 'Still missed: '+', '.join(still)))
+    return ("Of %d changes, %d were caught by the quick check as it stood when the change arrived; %d were missed at first (%s; C20-a was\nanswered with a machinery failure, exit 2) and led to the strengthenings recorded in the `strengthening`\nfield of their `meta.json` and in 11.1. %s."
+            %(len(ms),len(ms)-len(miss),len(miss),', '.join(miss),'All %d are caught by the checks as they stand: each was run when it was taken in or when its check was strengthened; the last re-run of every earlier seed through `selftest_mutants.sh seeded_` was made after round l (mutants/results.jsonl), the re-runs since are named in 11.1'%len(ms) if not still else 'Still missed: '+', '.join(still)))
 def neutral():
     out=["| control | origin | what it changes (behaviour preserved) | checks run against it | outcome |","|---|---|---|---|---|"]
     for d in sorted(glob.glob(V+'/neutral/*/meta.json')):
